@@ -106,6 +106,7 @@ def step (st : State) (line : String) : State × String :=
     | some (true, al) =>
       match nats? al, nats? (toks syms) with
       | some al, some sy => pure (showE ((encodeChars al sy).map showNatsE))
+      | some _, none => pure (errS .alphabetError)      -- an item that is not a single letter (`65.67`) is not a symbol
       | _, _ => pure "bad-op"
     | some (false, al) => pure (showE ((encode al (toks syms)).map showNatsE))
     | none => pure "bad-op"
@@ -145,7 +146,7 @@ def step (st : State) (line : String) : State × String :=
     | some (_, x), some (_, y) => pure s!"ok {extends_ x y}"
     | _, _ => pure "bad-op"
   -- sequences
-  | ["s_new", a, syms] =>
+  | "s_new" :: a :: syms :: _ =>
     match parseAlph a with
     | some (_, al) => pushSeq st (Seq.new 0 al (toks syms)) showSyms
     | none => pure "bad-op"
@@ -469,6 +470,16 @@ def step (st : State) (line : String) : State × String :=
         | _, _ => pure (errS .alphabetError)
     | none, _ => pure "ERR:notable"
     | _, none => pure "ERR:noreg"
+  | ["c_codes", form, rows] =>      -- codon codes given directly (tuple / map_codon_codes / is_start_codon), also negative ones
+    match st.table, (rows.splitOn ";").mapM (fun r => (r.splitOn ".").mapM String.toInt?) with
+    | some t, some rs =>
+      let look (r : List Int) : Except Err Nat :=
+        if r.any (· < 0) then .error .alphabetError else lookupCodon t (r.map Int.toNat)
+      let start (r : List Int) : Except Err Nat :=
+        if r.any (fun d => d < 0 || d ≥ 4) then .error .alphabetError else .ok (if isStart t (r.map Int.toNat) then 1 else 0)
+      pure (showE ((mapE (if form == "start" then start else look) rs).map showNatsE))
+    | none, _ => pure "ERR:notable"
+    | _, none => pure "bad-op"
   | ["c_dict"] => pure (match st.table with | some t => "ok " ++ showTable t | none => "ERR:notable")
   | ["c_eq2"] =>
     pure (match st.table, st.table2 with
